@@ -19,7 +19,7 @@ RULE = (
     "a case = one byte string tokenised with PSBaseParser.nexttoken() until PSEOF under every constant "
     "buffer size 1..k and the default (k=9 quick, 33 thorough; sweep cases: 1..len+1 and default). Strings come "
     "from an exhaustive sweep of all strings up to length L over a 31-byte class alphabet (L=3 quick, 4 thorough; "
-    "length 5 over a reduced alphabet in thorough) and from seeded swarm sampling of lengths 1..64, plus (1 case in 300) a token of 4299..8193 bytes of one lexical class under sizes default/1/3/4097. "
+    "length 5 over a reduced alphabet in thorough) and from seeded swarm sampling of lengths 1..64, plus (1 case in 300) a token of 4299..8193 bytes of one lexical class under sizes default/1/3/4097, plus (1 case in 4000) a run of 32767..131073 bytes under sizes default/1/4097/whole. "
     "distinct = distinct byte strings; non-trivial = the string yields at least one token and is at least 2 bytes long."
 )
 COMPONENTS_REAL = ["pdfminer.psparser.PSBaseParser (all scanners, fillbuf, nexttoken)"]
@@ -28,7 +28,7 @@ ASSUMPTIONS = [
     "buffer sizes are constant per tokenisation, as the statement says (varying sizes are exercised under C01)",
     "work bound: steps <= 60*(len+2) monitored events",
 ]
-PROBES = ["very long token", "refill inside string escape", "refill inside hex name escape", "refill inside number", "eof flush produced token"]
+PROBES = ["token of 32 K bytes or more", "very long token", "refill inside string escape", "refill inside hex name escape", "refill inside number", "eof flush produced token"]
 TIERS = {
     "quick": {"batches": 16, "runs": 25000, "budget_s": 40, "kmax": 9, "sweep_len": 3},
     "thorough": {"batches": 64, "runs": 40000, "budget_s": 900, "kmax": 33, "sweep_len": 4},
@@ -177,6 +177,14 @@ def run(tape, ctx, item=None):
     if item is not None:
         data = bytes.fromhex(item["data"])
         sizes = [0] + list(range(1, min(len(data), kmax) + 2))
+    elif tape.coin(1, 4000, "huge"):
+        # a run of one lexical class tens of thousands of bytes long (lengths around powers of two, where fixed
+        # limits tend to sit): the token sequence may still not depend on the buffer size
+        ch = tape.pick([b"a", b"7", b"A", b"(", b"<4", b"/n", b"%", b" ", b"."], "huge.ch")
+        n = tape.pick([32767, 32768, 65535, 65536, 65537, 70000, 131073], "huge.n")
+        data = tape.pick([b"", b" ", b"/", b"(", b"<"], "huge.pre") + (ch * n)[:n] + tape.pick([b"", b" ", b")", b">", b" x"], "huge.post")
+        sizes = [0, 4097, len(data) + 7] + ([1] if n <= 70000 else [3])
+        ctx.probe("token of 32 K bytes or more")
     elif tape.coin(1, 300, "long"):
         data = gen_long(tape)
         sizes = [0, 1, 3, 4097]
